@@ -540,6 +540,58 @@ fn mt_lock_run(seed: u64, rep: &mut MtReport) {
     if bad { std::mem::forget(table); }
 }
 
+/// Lock-table stress on plain threads (the shape of the engine's QueryLockManager: Poll, value = Arc, pinned while
+/// referenced): tiny capacity, a handful of keys, many threads.  A thread takes the lock object of a key, registers it
+/// as live, sometimes keeps it while it asks for other keys (eviction pressure while pinned pushes the entry into the
+/// pinned region), releases it — so maintenance passes on other threads keep polling entries that were just released
+/// while lookups of the same key race with them.  Oracle: two simultaneously live, different lock objects for one key.
+fn mt_lock_threads(seed: u64, budget: std::time::Duration, rep: &mut MtReport) {
+    let mut r = Rng::new(seed ^ 0x7A7A_0C16);
+    let cap = r.range(1, 3) as usize; let keys = r.range(4, 8); let threads = r.range(8, 16);
+    let desc = format!("mt-lock-threads seed={seed} cap={cap} keys={keys} threads={threads} ms={}", budget.as_millis());
+    *LAST_PANIC.lock() = None;
+    let table = Arc::new(LockTable::new(cap));
+    let holders: Arc<Vec<parking_lot::Mutex<(usize, usize)>>> = Arc::new((0..keys).map(|_| parking_lot::Mutex::new((0, 0))).collect());
+    let stop = Arc::new(AtomicBool::new(false)); let violations = Arc::new(parking_lot::Mutex::new(Vec::<String>::new()));
+    let rounds = Arc::new(AtomicU64::new(0)); let panicked = Arc::new(AtomicBool::new(false));
+    let start = std::time::Instant::now();
+    let hs: Vec<_> = (0..threads).map(|t| {
+        let (table, holders, stop, violations, rounds, panicked) = (table.clone(), holders.clone(), stop.clone(), violations.clone(), rounds.clone(), panicked.clone());
+        let mut rng = Rng::new(seed.wrapping_mul(977).wrapping_add(t));
+        std::thread::spawn(move || {
+            let res = catch_unwind(AssertUnwindSafe(|| {
+                let mut n = 0u64;
+                while !stop.load(Ordering::Relaxed) {
+                    let key = if rng.chance(1, 3) { rng.below(2.min(keys)) } else { rng.below(keys) };
+                    let lock = table.get_lock_instance(&key);
+                    let addr = Arc::as_ptr(&lock.0) as usize;
+                    { let mut slot = holders[key as usize].lock();
+                      if slot.0 > 0 && slot.1 != addr { violations.lock().push(format!("key {key}: a second, different lock object was handed out while {} reference(s) to the first are alive (after {} rounds, {} ms)", slot.0, rounds.load(Ordering::Relaxed), start.elapsed().as_millis())); stop.store(true, Ordering::SeqCst); }
+                      slot.0 += 1; slot.1 = addr; }
+                    match rng.below(6) {
+                        0 | 1 => std::thread::yield_now(),
+                        2 => { for _ in 0..rng.range(1, 4) { let k2 = rng.below(keys); if k2 != key { drop(table.get_lock_instance(&k2)); } } }   // pressure while pinned
+                        3 => { for _ in 0..rng.range(1, 200) { std::hint::spin_loop(); } }
+                        _ => {}
+                    }
+                    holders[key as usize].lock().0 -= 1;
+                    drop(lock);
+                    n += 1; if n % 64 == 0 { rounds.fetch_add(64, Ordering::Relaxed); }
+                }
+            }));
+            if res.is_err() { panicked.store(true, Ordering::SeqCst); stop.store(true, Ordering::SeqCst); }
+        })
+    }).collect();
+    while !stop.load(Ordering::Relaxed) && start.elapsed() < budget { std::thread::sleep(std::time::Duration::from_millis(5)); }
+    stop.store(true, Ordering::SeqCst);
+    for h in hs { let _ = h.join(); }
+    rep.runs += 1; rep.ops += rounds.load(Ordering::Relaxed);
+    let mut bad = false;
+    if panicked.load(Ordering::SeqCst) { rep.fails.push((panic_sig(), "a lock-table thread panicked".into(), desc.clone())); bad = true; }
+    if let Some(v) = violations.lock().first() { rep.fails.push(("lock-split".into(), v.clone(), desc.clone())); bad = true; }
+    if bad { std::mem::forget(table); }
+}
+
 // ------------------------------------------------------------------ main
 fn main() {
     let a = args(); install_hook();
@@ -563,7 +615,12 @@ fn main() {
         if case.starts_with("mt-") {
             let seed: u64 = case.split_whitespace().find_map(|w| w.strip_prefix("seed=")).and_then(|x| x.parse().ok()).unwrap_or(1);
             let mut rep = MtReport { runs: 0, ops: 0, fails: vec![] };
-            for _ in 0..5 { if case.starts_with("mt-lock") { mt_lock_run(seed, &mut rep) } else { mt_cache_run(seed, &mut rep) } }
+            let ms: u64 = case.split_whitespace().find_map(|w| w.strip_prefix("ms=")).and_then(|x| x.parse().ok()).unwrap_or(500);
+            for _ in 0..5 {
+                if case.starts_with("mt-lock-threads") { mt_lock_threads(seed, std::time::Duration::from_millis(ms * 4), &mut rep) }
+                else if case.starts_with("mt-lock") { mt_lock_run(seed, &mut rep) } else { mt_cache_run(seed, &mut rep) }
+                if !rep.fails.is_empty() { break; }
+            }
             evals = rep.runs; fails = rep.fails;
         } else {
             let (h, ops) = parse_case(&case).expect("unparsable case");
@@ -623,6 +680,12 @@ fn main() {
         for i in 0..n_mt { mt_cache_run(a.seed.wrapping_mul(1000).wrapping_add(i), &mut rep); }
         let mt_cache_ops = rep.ops;
         for i in 0..n_lock { mt_lock_run(a.seed.wrapping_mul(1000).wrapping_add(i), &mut rep); }
+        let before = rep.ops;
+        let (n_st, st_ms) = if quick { (8u64, 350u64) } else { (40, 500) };
+        let st_ms = std::env::var("LFU_STRESS_MS").ok().and_then(|x| x.parse().ok()).unwrap_or(st_ms);
+        for i in 0..n_st { mt_lock_threads(a.seed.wrapping_mul(1000).wrapping_add(i), std::time::Duration::from_millis(st_ms), &mut rep);
+            if rep.fails.iter().filter(|f| f.0 == "lock-split").count() >= 2 { break; } }
+        strat.insert("mt-lock-threads runs", n_st); strat.insert("mt-lock-threads rounds", rep.ops - before);
         evals += rep.runs;
         if stopped_early { strat.insert("shard stopped early after 60 oracle failures", 1); }
         strat.insert("mt-cache runs", n_mt); strat.insert("mt-lock-table runs", n_lock);
